@@ -7,8 +7,14 @@ Open Scope R_scope.
 Definition r_euclid := euclid Rplus Rminus Rmult sqrt.
 Definition r_euclid_sq := euclid_sq Rplus Rminus Rmult.
 
+Lemma sq_nonneg (a : R) : 0 <= a * a.
+Proof. pose proof (Rle_0_sqr a) as H. unfold Rsqr in H. exact H. Qed.
+
 Lemma r_euclid_sq_nonneg x1 x2 y1 y2 : 0 <= r_euclid_sq x1 x2 y1 y2.
-Proof. unfold r_euclid_sq, euclid_sq. cbv zeta. nra. Qed.
+Proof.
+  unfold r_euclid_sq, euclid_sq. cbv zeta.
+  pose proof (sq_nonneg (x1 - x2)). pose proof (sq_nonneg (y1 - y2)). lra.
+Qed.
 
 Lemma r_euclid_sym x1 x2 y1 y2 : r_euclid x1 x2 y1 y2 = r_euclid x2 x1 y2 y1.
 Proof. unfold r_euclid, euclid, euclid_sq. cbv zeta. f_equal. ring. Qed.
@@ -17,7 +23,10 @@ Lemma r_euclid_zero x1 x2 y1 y2 : r_euclid x1 x2 y1 y2 = 0 <-> (x1 = x2 /\ y1 = 
 Proof.
   unfold r_euclid, euclid. split.
   - intros H. apply sqrt_eq_0 in H; [|apply r_euclid_sq_nonneg].
-    unfold euclid_sq in H. cbv zeta in H. split; nra.
+    unfold euclid_sq in H. cbv zeta in H.
+    pose proof (sq_nonneg (x1 - x2)) as Ha. pose proof (sq_nonneg (y1 - y2)) as Hb.
+    assert (Ha0 : (x1 - x2) * (x1 - x2) = 0) by lra. assert (Hb0 : (y1 - y2) * (y1 - y2) = 0) by lra.
+    apply Rmult_integral in Ha0. apply Rmult_integral in Hb0. split; lra.
   - intros [-> ->]. unfold euclid_sq. cbv zeta.
     replace ((x2 - x2) * (x2 - x2) + (y2 - y2) * (y2 - y2)) with 0 by ring. apply sqrt_0.
 Qed.
@@ -28,10 +37,15 @@ Proof.
   intros Hp Hq Hu Hv.
   assert (Hid : (a * c + b * d) * (a * c + b * d) + (a * d - b * c) * (a * d - b * c)
                 = (a * a + b * b) * (c * c + d * d)) by ring.
+  pose proof (sq_nonneg a). pose proof (sq_nonneg b). pose proof (sq_nonneg c). pose proof (sq_nonneg d).
+  pose proof (sq_nonneg (a * d - b * c)) as Hdet.
   assert (Hprod : (a * a + b * b) * (c * c + d * d) <= (p * p) * (q * q)).
-  { apply Rmult_le_compat; nra. }
-  destruct (Rle_or_lt (a * c + b * d) (p * q)) as [H|H]; [exact H|].
-  assert (0 <= p * q) by nra. nra.
+  { apply Rmult_le_compat; lra. }
+  destruct (Rle_or_lt (a * c + b * d) (p * q)) as [Hle|Hgt]; [exact Hle|].
+  assert (Hpq : 0 <= p * q) by (apply Rmult_le_pos; assumption).
+  assert (Hsq : (p * q) * (p * q) < (a * c + b * d) * (a * c + b * d)).
+  { apply Rmult_le_0_lt_compat; lra. }
+  replace ((p * q) * (p * q)) with ((p * p) * (q * q)) in Hsq by ring. lra.
 Qed.
 
 Lemma r_euclid_triangle ax ay bx by_ cx cy :
@@ -48,9 +62,11 @@ Proof.
   rewrite <- (sqrt_square (p + q)) by lra.
   apply sqrt_le_1_alt.
   unfold euclid_sq in *. cbv zeta in *.
-  pose proof (r_cauchy_schwarz (ax - bx) (ay - by_) (bx - cx) (by_ - cy) p q Hp Hq) as Hcs.
-  assert (Hcs' : (ax - bx) * (bx - cx) + (ay - by_) * (by_ - cy) <= p * q) by (apply Hcs; lra).
-  replace (ax - cx) with ((ax - bx) + (bx - cx)) by ring.
-  replace (ay - cy) with ((ay - by_) + (by_ - cy)) by ring.
-  nra.
+  assert (Hcs : (ax - bx) * (bx - cx) + (ay - by_) * (by_ - cy) <= p * q)
+    by (apply r_cauchy_schwarz; lra).
+  replace ((ax - cx) * (ax - cx) + (ay - cy) * (ay - cy))
+    with (((ax - bx) * (ax - bx) + (ay - by_) * (ay - by_)) + ((bx - cx) * (bx - cx) + (by_ - cy) * (by_ - cy))
+          + 2 * ((ax - bx) * (bx - cx) + (ay - by_) * (by_ - cy))) by ring.
+  replace ((p + q) * (p + q)) with (p * p + q * q + 2 * (p * q)) by ring.
+  lra.
 Qed.
